@@ -3,6 +3,7 @@ From Coq Require Import List String.
 From VQ.Gen Require Import w_rpq.
 Import ListNotations.
 Open Scope string_scope.
-Lemma pin_w_rpq : w_rpq =
+Definition pinned_w_rpq : list string :=
   ["RandomProjectionQuantizer.forward:self.vq:eval()"].
+Lemma pin_w_rpq : w_rpq = pinned_w_rpq.
 Proof. reflexivity. Qed.
